@@ -14,8 +14,8 @@ frames evaluated by a real `PerceptionEvaluationManager` in BASE_LINK or MAP, ha
 `PerceptionAnalyzer3D` and read `calculate_error("yaw")` for every paired row (TP and FP pairs alike): the same
 oracle (range [−π, π], magnitude d) applies – also to the `error_yaw` column of `PerceptionAnalyzer3DField`
 (`add_error_columns()`, both rows of a pair); the model (`analyzerYawError`, the two masked wrap assignments) is
-compared value by value, and the sign-free yaw statistics of `summarize_error()` (max, min, rms over the pairs) are
-compared with the ones computed from the model's errors.
+compared value by value (up to one global sign convention per case).  The tool's interface is not part of C09's anchors: it is
+resolved defensively (`_Unobservable`), and the statistics of `summarize_error()` are not compared.
 """
 from __future__ import annotations
 
@@ -88,7 +88,13 @@ ASSUMPTIONS = [
     "tolerance 1e-6 (pyquaternion's yaw is not exactly covariant under a frame change when roll/pitch ≠ 0: deviation O(rp²))",
     "ego poses are yaw + translation",
     "at d = π the sign of the reported error is decided by float rounding: either sign accepted when the model says 1 − d < 1e-12 (counted as branch 'boundary:either-sign')",
-    "the signed yaw error is compared with the model, but the oracle only demands range and magnitude (the property text fixes no sign convention)",
+    "the signed yaw error is compared with the model up to ONE global sign per case (the model's convention or its opposite, the same "
+    "for all renderings / all rows of a case); the oracle only demands range and magnitude (the property text fixes no sign convention)",
+    "the analysis tool (perception_eval/tool) is read through its public interface as it is today; class / method / column names, "
+    "signatures and the row layout are not part of C09: when one of them is not there in the expected form the observation is "
+    "dropped for the case (histogram key unobservable:<name>, compare 'skip'), never reported; the definitions of the statistics "
+    "of summarize_error() are not compared; a pair the tool's table does not list reports no yaw error (no claim)",
+    "ranges are closed with a float slack of 1e-12 (weight in [0,1], yaw error in [-pi, pi])",
 ]
 
 PI = math.pi
@@ -153,90 +159,107 @@ def _obj(I, frame, pos, q, uuid):
     )
 
 
+class HarnessSetupError(RuntimeError):
+    """building the inputs of a case failed (objects, poses, configs, managers, sample data): an infrastructure error of the
+    check, raised from harness code so that it is never mistaken for an exception of the calls the property is about"""
+
+
+def _setup(what, fn, *a, **kw):
+    try:
+        return fn(*a, **kw)
+    except Exception as e:  # noqa: BLE001
+        raise HarnessSetupError(f"{what}: {type(e).__name__}: {e}") from e
+
+
 def run_impl(case):
     if case["kind"] == "analyzer":
         return _run_analyzer(case)
     I = _I()
-    try:
-        te = float(Fraction(case["te"])) * PI
-        se = case.get("se", 0)
-        if case["kind"] == "nogt":
-            q = _quat(I, te, None)
-            e = _obj(I, I.FrameID.BASE_LINK, (3.0, 1.0, 0.0), -q if se else q, "e")
+    te = float(Fraction(case["te"])) * PI
+    se = case.get("se", 0)
+    if case["kind"] == "nogt":
+        # no ground truth: outside the quantifier ("all pairs of orientations"); whatever the library does is recorded, not judged
+        e = _setup("object", lambda: _obj(I, I.FrameID.BASE_LINK, (3.0, 1.0, 0.0), -_quat(I, te, None) if se else _quat(I, te, None), "e"))
+        try:
             r = I.DynamicObjectWithPerceptionResult(e, None)
             he = r.heading_error
             return {"r": [{"w": float(I.TPMetricsAph().get_value(r)), "err": None if he is None else float(he[2])}]}
-        tg = float(Fraction(case["tg"])) * PI
-        t0 = float(Fraction(case["t0"])) * PI
-        rp = case.get("rp")
-        qe = _quat(I, te, rp[0:2] if rp else None)
-        qg = _quat(I, tg, rp[2:4] if rp else None)
-        pe, pg = (case["pos"][0], case["pos"][1], 0.0), (case["pos"][2], case["pos"][3], 0.0)
+        except Exception as ex:  # noqa: BLE001
+            return {"r": [{"w": None, "err": None, "raised": type(ex).__name__}]}
+    tg = float(Fraction(case["tg"])) * PI
+    t0 = float(Fraction(case["t0"])) * PI
+    rp = case.get("rp")
+    qe = _quat(I, te, rp[0:2] if rp else None)
+    qg = _quat(I, tg, rp[2:4] if rp else None)
+    pe, pg = (case["pos"][0], case["pos"][1], 0.0), (case["pos"][2], case["pos"][3], 0.0)
+    from harness import builders as _B  # registry with a history (replaced ego pose), see builders.give_history
+
+    def poses():
         ego2map = I.HomogeneousMatrix(
             (case["tx"], case["ty"], 0.0), I.Quaternion(axis=[0, 0, 1], angle=t0), I.FrameID.BASE_LINK, I.FrameID.MAP
         )
-        transforms = I.TransformDict([ego2map])
-        from harness import builders as _B  # registry with a history (replaced ego pose), see builders.give_history
+        return ego2map, _B.maybe_history(I.TransformDict([ego2map]), ego2map, ("c09", case["te"], case.get("tg"), case["tx"]))
 
-        transforms = _B.maybe_history(transforms, ego2map, ("c09", case["te"], case.get("tg"), case["tx"]))
-        cache = {}
+    ego2map, transforms = _setup("ego pose / transforms", poses)
+    cache = {}
 
-        def obj(which, frame, sign):
-            k = (which, frame, sign)
-            if k not in cache:
-                p, q = (pe, qe) if which == 0 else (pg, qg)
-                if frame == 1:
-                    p, q = ego2map.transform(p, q)  # the repository's own rigid motion
-                cache[k] = _obj(I, I.FrameID.MAP if frame else I.FrameID.BASE_LINK, p, -q if sign else q, "eg"[which])
-            return cache[k]
+    def obj(which, frame, sign):
+        k = (which, frame, sign)
+        if k not in cache:
+            p, q = (pe, qe) if which == 0 else (pg, qg)
+            if frame == 1:
+                p, q = ego2map.transform(p, q)  # the repository's own rigid motion
+            cache[k] = _obj(I, I.FrameID.MAP if frame else I.FrameID.BASE_LINK, p, -q if sign else q, "eg"[which])
+        return cache[k]
 
-        out = []
-        for i, (f, a, b, s) in enumerate(case["rend"]):
-            e, g = obj(0, f, a), obj(1, f, b)
-            if s:
-                e, g = g, e
-            r = I.DynamicObjectWithPerceptionResult(e, g, transforms=transforms if f else None)
-            w = I.TPMetricsAph().get_value(r)
-            he = r.heading_error
-            d = {"w": float(w), "err": float(he[2])}
-            if case.get("ap") and i % 5 == 0:
-                ap = I.Ap(I.TPMetricsAph(), [[r]], 1, [I.AutowareLabel.CAR], I.MatchingMode.CENTERDISTANCE, [1000.0])
-                d["tp"] = [float(x) for x in ap.tp_list]
-            out.append(d)
-        res = {"r": out}
-        # objects DERIVED from already-scored ones the way the library derives them (deepcopy, then the state /
-        # orientation is replaced: interpolation, frame conversion) must be weighted by their CURRENT heading
-        try:
-            from copy import deepcopy
+    out = []
+    for i, (f, a, b, s) in enumerate(case["rend"]):
+        e, g = _setup("objects", lambda: (obj(0, f, a), obj(1, f, b)))
+        if s:
+            e, g = g, e
+        # ---- the observations of the property (`observe_at`); their exceptions are NOT caught: an in-quantifier pair that
+        # cannot be weighted is reported by run_check as "the real code raised"
+        r = I.DynamicObjectWithPerceptionResult(e, g, transforms=transforms if f else None)
+        w = I.TPMetricsAph().get_value(r)
+        he = r.heading_error
+        d = {"w": float(w), "err": float(he[2])}
+        if case.get("ap") and i % 5 == 0:
+            ap = I.Ap(I.TPMetricsAph(), [[r]], 1, [I.AutowareLabel.CAR], I.MatchingMode.CENTERDISTANCE, [1000.0])
+            d["tp"] = [float(x) for x in ap.tp_list]
+        out.append(d)
+    res = {"r": out}
+    # objects DERIVED from already-scored ones the way the library derives them (deepcopy, then the state /
+    # orientation is replaced: interpolation, frame conversion) must be weighted by their CURRENT heading
+    from copy import deepcopy
 
-            from perception_eval.common.object import ObjectState
+    e0, g0 = obj(0, 0, 0), obj(1, 0, 0)
+    I.TPMetricsAph().get_value(I.DynamicObjectWithPerceptionResult(e0, g0))  # make sure both were scored
+    try:  # building the derived objects is harness code on top of `ObjectState` (positional, mutable orientation): when that
+        # form is not there any more the observation is dropped (histogram key unobservable:derived-objects)
+        from perception_eval.common.object import ObjectState
 
-            e0, g0 = obj(0, 0, 0), obj(1, 0, 0)
-            I.TPMetricsAph().get_value(I.DynamicObjectWithPerceptionResult(e0, g0))  # make sure both were scored
-            d1 = deepcopy(e0)
-            d1.state = ObjectState(e0.state.position, g0.state.orientation, e0.state.shape, e0.state.velocity)
-            d2 = deepcopy(e0)
-            d2.state.orientation = g0.state.orientation
-            dr = []
-            for dd in (d1, d2):
-                r = I.DynamicObjectWithPerceptionResult(dd, g0)
-                dr.append({"w": float(I.TPMetricsAph().get_value(r)), "err": float(r.heading_error[2])})
-            res["derived"] = dr
-        except Exception as e:  # noqa
-            res["derived"] = [{"exc": type(e).__name__}]
-        # quaternion level (Lean `yawDir`, `radiansDir`): the components the objects were built from, exactly, and what
-        # pyquaternion reads out of q and of −q (fresh Quaternion objects: yaw_pitch_roll normalises in place)
-        qd = []
-        for q in (qe, qg):
-            comps = [float(x) for x in q.q]
-            qp, qn = I.Quaternion(comps), I.Quaternion([-x for x in comps])
-            qd.append({"q": [core.q(x) for x in comps], "yaw": float(qp.yaw_pitch_roll[0]), "yawn": float(qn.yaw_pitch_roll[0]),
-                       "rad": float(qp.radians), "radn": float(qn.radians)})
-        res["qd"] = qd
-        return res
-    except Exception as e:  # noqa
-        return {"err": type(e).__name__, "msg": str(e)[:200]}
-
+        d1 = deepcopy(e0)
+        d1.state = ObjectState(e0.state.position, g0.state.orientation, e0.state.shape, e0.state.velocity)
+        d2 = deepcopy(e0)
+        d2.state.orientation = g0.state.orientation
+    except Exception as ex:  # noqa: BLE001
+        res["unobservable"] = ["derived-objects:" + type(ex).__name__]
+    else:
+        dr = []
+        for dd in (d1, d2):
+            r = I.DynamicObjectWithPerceptionResult(dd, g0)
+            dr.append({"w": float(I.TPMetricsAph().get_value(r)), "err": float(r.heading_error[2])})
+        res["derived"] = dr
+    # quaternion level (Lean `yawDir`, `radiansDir`): the components the objects were built from, exactly, and what
+    # pyquaternion reads out of q and of −q (fresh Quaternion objects: yaw_pitch_roll normalises in place)
+    qd = []
+    for q in (qe, qg):
+        comps = [float(x) for x in q.q]
+        qp, qn = I.Quaternion(comps), I.Quaternion([-x for x in comps])
+        qd.append({"q": [core.q(x) for x in comps], "yaw": float(qp.yaw_pitch_roll[0]), "yawn": float(qn.yaw_pitch_roll[0]),
+                   "rad": float(qp.radians), "radn": float(qn.radians)})
+    res["qd"] = qd
+    return res
 
 
 # ----------------------------------------------------------------------------- the analyzer's yaw error column
@@ -245,78 +268,145 @@ AN_LABELS = ["car", "bicycle", "pedestrian", "motorbike"]
 AN_SPOTS = [(-75.0 + 10.0 * (k % 16), -75.0 + 10.0 * (k // 16)) for k in range(256)]  # 10 m apart: every pair is matched with itself
 
 
+class _Unobservable(Exception):
+    """an interface of `perception_eval.tool` the harness reads the yaw-error column through is not there in the expected form.
+    The tool's API (class / method / column names, status strings, index layout) is in neither `anchors` nor `observe_at` of C09:
+    the observation is DROPPED for the case (histogram key `unobservable:<name>`, compare -> "skip"), never reported."""
+
+
+def _api(obj, name):
+    f = getattr(obj, name, None)
+    if f is None:
+        raise _Unobservable(f"{getattr(obj, '__name__', type(obj).__name__)}.{name}")
+    return f
+
+
+def _call(obj, name, *a, **kw):
+    """call a public method of the tool; a missing method or another signature -> _Unobservable; what the method itself raises
+    propagates as an exception of the real code"""
+    import inspect
+
+    f = _api(obj, name)
+    try:
+        inspect.signature(f).bind(*a, **kw)
+    except TypeError:
+        raise _Unobservable(f"{type(obj).__name__}.{name}(signature)") from None
+    except ValueError:
+        pass
+    return f(*a, **kw)
+
+
+def _construct(cls, *a):
+    import inspect
+
+    try:
+        inspect.signature(cls).bind(*a)
+    except TypeError:
+        raise _Unobservable(f"{getattr(cls, '__name__', cls)}(signature)") from None
+    except ValueError:
+        pass
+    return cls(*a)
+
+
+def _col(df, name, what):
+    if name not in getattr(df, "columns", ()):
+        raise _Unobservable(f"{what}[{name!r}]")
+    return list(df[name])
+
+
 def _run_analyzer(case):
     """frames of co-located pairs -> real manager -> real PerceptionAnalyzer3D -> yaw error of every paired row"""
     I = _I()
+    import importlib
+
     import numpy as np
     from harness import builders as B
-    from perception_eval.tool import PerceptionAnalyzer3D
 
     try:
         frame = case["frame"]
-        m = B.mk_manager({"max_x_position": 200.0, "max_y_position": 200.0}, frame)
+        m = _setup("manager", B.mk_manager, {"max_x_position": 200.0, "max_y_position": 200.0}, frame)
         cfg = m.evaluator_config
-        crit = B.crit_cfg(cfg, AN_LABELS, max_x_position_list=[200.0] * 4, max_y_position_list=[200.0] * 4)
-        pf = B.pf_cfg(cfg, AN_LABELS, [case["thr"]] * 4)
+        crit = _setup("critical object filter config", B.crit_cfg, cfg, AN_LABELS, max_x_position_list=[200.0] * 4, max_y_position_list=[200.0] * 4)
+        pf = _setup("pass/fail config", B.pf_cfg, cfg, AN_LABELS, [case["thr"]] * 4)
         t0 = float(Fraction(case["t0"])) * PI
         n = 0
         for fi, pairs in enumerate(case["frames"]):
-            e2m = B.ego2map(case["tx"] + 3.5 * fi, case["ty"] - 1.25 * fi, t0) if frame == "map" else B.ego2map(0.0, 0.0, 0.0)
             t = 1000 * (fi + 1)
-            gts, ests = [], []
-            for te, tg, se, sg in pairs:
-                x, y = AN_SPOTS[n % 256]
-                w, l = case["size"]
-                g = B.mk_obj(x, y, float(Fraction(tg)) * PI, "CAR", 1.0, "base_link", f"g{n}", t, (w, l, 1.5), sign=-1 if sg else 1)
-                e = B.mk_obj(x, y, float(Fraction(te)) * PI, "CAR", 0.9, "base_link", f"e{n}", t, (w, l, 1.5), sign=-1 if se else 1)
-                if frame == "map":
-                    g, e = B.to_map(g, e2m), B.to_map(e, e2m)  # the repository's own rigid motion
-                gts.append(g)
-                ests.append(e)
-                n += 1
-            m.add_frame_result(t, B.mk_frame(t, fi, gts, e2m, history=bool(case.get("history"))), ests, crit, pf)
-        an = PerceptionAnalyzer3D(cfg)
-        an.add(m.frame_results)
-        df = an.df
-        paired = df[df["status"].isin(["TP", "FP", "TN"])]
-        gt_df, est_df = an.get_pair_results(paired)
-        errs = np.asarray(an.calculate_error("yaw"), dtype=float)
-        rows = []
-        if gt_df is not None:
-            gu, eu, st = list(gt_df["uuid"]), list(est_df["uuid"]), list(gt_df["status"])
-            if not (len(gu) == len(eu) == len(errs)):
-                return {"err": "Shape", "msg": f"{len(gu)} ground-truth rows, {len(eu)} estimate rows, {len(errs)} yaw errors"}
-            for g, e, s_, v in zip(gu, eu, st, errs):
-                rows.append({"g": g, "e": e, "st": str(s_), "err": float(v)})
-        summ = an.summarize_error().loc[("ALL", "yaw")]
-        stats = {k: float(summ[k]) for k in ("average", "rms", "std", "max", "min")}
-        # the TP rows alone, through the df argument (the way the tool's own plots call it)
-        tp = df[df["status"] == "TP"]
-        tp_errs = [float(v) for v in np.asarray(an.calculate_error("yaw", df=tp), dtype=float)] if len(tp) else []
-        tg_df, _ = an.get_pair_results(tp) if len(tp) else (None, None)
-        tp_rows = [] if tg_df is None else [{"g": g, "err": v} for g, v in zip(list(tg_df["uuid"]), tp_errs)]
-        res = {"an": rows, "stats": stats, "tp": tp_rows, "n": n}
+
+            def build(n0):
+                e2m = B.ego2map(case["tx"] + 3.5 * fi, case["ty"] - 1.25 * fi, t0) if frame == "map" else B.ego2map(0.0, 0.0, 0.0)
+                gts, ests, k = [], [], n0
+                for te, tg, se, sg in pairs:
+                    x, y = AN_SPOTS[k % 256]
+                    w, l = case["size"]
+                    g = B.mk_obj(x, y, float(Fraction(tg)) * PI, "CAR", 1.0, "base_link", f"g{k}", t, (w, l, 1.5), sign=-1 if sg else 1)
+                    e = B.mk_obj(x, y, float(Fraction(te)) * PI, "CAR", 0.9, "base_link", f"e{k}", t, (w, l, 1.5), sign=-1 if se else 1)
+                    if frame == "map":
+                        g, e = B.to_map(g, e2m), B.to_map(e, e2m)  # the repository's own rigid motion
+                    gts.append(g)
+                    ests.append(e)
+                    k += 1
+                return B.mk_frame(t, fi, gts, e2m, history=bool(case.get("history"))), ests, k
+
+            gt_frame, ests, n = _setup("frame objects", build, n)
+            m.add_frame_result(t, gt_frame, ests, crit, pf)
+        res = {"n": n, "unobservable": []}
+        try:
+            try:
+                tool = importlib.import_module("perception_eval.tool")
+            except ImportError:
+                raise _Unobservable("perception_eval.tool") from None
+            an = _construct(_api(tool, "PerceptionAnalyzer3D"), cfg)
+            _call(an, "add", m.frame_results)
+            # the paired rows (both rows of a pair present) and their yaw errors: `calculate_error("yaw")` is the public place
+            # where "the yaw error reported for a pair" is reported by the analysis tool
+            gt_df, est_df = _call(an, "get_pair_results")
+            errs = np.asarray(_call(an, "calculate_error", "yaw"), dtype=float).reshape(-1)
+            rows = []
+            if gt_df is not None and est_df is not None:
+                gu, eu = _col(gt_df, "uuid", "pair results"), _col(est_df, "uuid", "pair results")
+                st = list(gt_df["status"]) if "status" in gt_df.columns else [None] * len(gu)
+                if not (len(gu) == len(eu) == len(errs)):
+                    # the error array cannot be attributed to pairs by position (other row selection than get_pair_results())
+                    raise _Unobservable(f"row alignment: {len(gu)} ground-truth rows, {len(eu)} estimate rows, {len(errs)} yaw errors")
+                for g, e, s_, v in zip(gu, eu, st, errs):
+                    rows.append({"g": str(g), "e": str(e), "st": str(s_), "err": float(v)})
+            res["an"] = rows
+            # the TP rows alone, through the df argument (the way the tool's own plots call it); optional
+            res["tp"] = []
+            df = getattr(an, "df", None)
+            if df is not None and "status" in getattr(df, "columns", ()):
+                tp = df[df["status"] == "TP"]
+                if len(tp):
+                    tg_df, _ = _call(an, "get_pair_results", tp)
+                    tp_errs = [float(v) for v in np.asarray(_call(an, "calculate_error", "yaw", df=tp), dtype=float).reshape(-1)]
+                    if tg_df is not None and "uuid" in tg_df.columns and len(tg_df) == len(tp_errs):
+                        res["tp"] = [{"g": str(g), "err": v} for g, v in zip(list(tg_df["uuid"]), tp_errs)]
+                    else:
+                        res["unobservable"].append("calculate_error(df=TP rows): row alignment")
+            else:
+                res["unobservable"].append("analyzer.df['status']")
+        except _Unobservable as u:
+            res["unobservable"].append(str(u))
         # third public place: the `error_yaw` column of PerceptionAnalyzer3DField (ground-truth row: est − gt, estimate row: gt − est)
         try:
-            from perception_eval.tool.perception_analyzer3dfield import PerceptionAnalyzer3DField
-
-            fa = PerceptionAnalyzer3DField(cfg)
-            fa.add(m.frame_results)
-            fa.add_additional_column()
-            fa.add_error_columns()
-            fdf = fa.df
+            try:
+                fmod = importlib.import_module("perception_eval.tool.perception_analyzer3dfield")
+            except ImportError:
+                raise _Unobservable("perception_eval.tool.perception_analyzer3dfield") from None
+            fa = _construct(_api(fmod, "PerceptionAnalyzer3DField"), cfg)
+            _call(fa, "add", m.frame_results)
+            _call(fa, "add_additional_column")
+            _call(fa, "add_error_columns")
+            fdf = _api(fa, "df")
             field = {}
-            for (idx, role), u, v in zip(fdf.index, list(fdf["uuid"]), list(fdf["error_yaw"])):
+            for u, v in zip(_col(fdf, "uuid", "field table"), _col(fdf, "error_yaw", "field table")):
                 if u is not None and v is not None and not math.isnan(float(v)):
                     field[str(u)] = float(v)
             res["field"] = field
-        except Exception as e:  # noqa
-            res["field_err"] = f"{type(e).__name__}: {str(e)[:150]}"
+        except _Unobservable as u:
+            res["unobservable"].append(str(u))
         return res
-    except Exception as e:  # noqa
-        import traceback
-
-        return {"err": type(e).__name__, "msg": str(e)[:200], "trace": traceback.format_exc()[-800:]}
     finally:
         B.cleanup()
 
@@ -332,68 +422,75 @@ def _an_pairs(case):
 
 
 def _an_by_gt(out):
-    return {int(r["g"][1:]): r for r in out["an"]}
+    by = {}
+    for r in out.get("an", []):
+        if r["g"][:1] == "g" and r["g"][1:].isdigit() and r["e"] == "e" + r["g"][1:]:
+            by[int(r["g"][1:])] = r
+    return by
+
+
+def _sign_fit(obs, tol):
+    """obs: [(reported/π, model/π, at the boundary d = π?)].  The text fixes NO sign convention of the yaw error (est − gt or
+    gt − est); the model has one.  Accepted: all rows agree with the model's sign, or all with the opposite sign (a global flip);
+    at d = π only the magnitude (the sign is decided by rounding).  -> None | (index, sign tried) of the first row that fits neither"""
+    first = None
+    for sgn in (1.0, -1.0):
+        bad = next((k for k, (ie, me, bd) in enumerate(obs)
+                    if not ((abs(abs(ie) - abs(me)) <= tol) if bd else (abs(ie - sgn * me) <= tol))), None)
+        if bad is None:
+            return None
+        first = bad if first is None else first
+    return first
 
 
 def _compare_analyzer(case, out, m):
     if "an" not in out:
-        return f"implementation raised {out.get('err')}: {out.get('msg')}"
+        return "skip"  # the analyzer's table is not observable through the expected public interface (histogram: unobservable:*)
     by = _an_by_gt(out)
     key = "errM" if case["frame"] == "map" else "err"
-    merrs = []
-    boundary = False
-    for (n, te, tg), mp in zip(_an_pairs(case), m["pairs"]):
-        r = by.get(n)
-        if r is None or r["e"] != f"e{n}":
-            return f"pair {n} (τe={te}, τg={tg}): no paired row g{n}/e{n} in the analyzer's table ({r})"
-        me = float(core.unq(mp[key]))
-        d = float(core.unq(mp["d"]))
-        ie = r["err"] / PI
-        if 1 - d < 1e-12:
-            boundary = True
-            if not abs(abs(ie) - abs(me)) <= TOL:
-                return f"pair {n} (τe={te}, τg={tg}): |analyzer yaw error|/π {abs(ie)!r} != model {abs(me)!r} (boundary)"
-            merrs.append(abs(ie) * PI)
-        else:
-            if not abs(ie - me) <= TOL:
-                return f"pair {n} (τe={te}, τg={tg}): analyzer yaw error/π {ie!r} != model {me!r}"
-            merrs.append(me * PI)
-    if len(by) != len(merrs):
-        return f"{len(by)} paired rows in the analyzer's table, {len(merrs)} pairs were built"
-    if "field" not in out:
-        return f"PerceptionAnalyzer3DField raised {out.get('field_err')}"
+    obs, who = [], []
+    fobs = {"g": [], "e": []}
+    fwho = {"g": [], "e": []}
     for (n, te, tg), mp in zip(_an_pairs(case), m["pairs"]):
         me, d = float(core.unq(mp[key])), float(core.unq(mp["d"]))
-        for u, want in ((f"g{n}", -me), (f"e{n}", me)):  # ground-truth row: est − gt; estimate row: the negative
-            v = out["field"].get(u)
-            if v is None:
-                return f"pair {n}: no error_yaw for row {u} in PerceptionAnalyzer3DField.df"
-            ok = abs(abs(v / PI) - abs(want)) <= TOL if 1 - d < 1e-12 else abs(v / PI - want) <= TOL
-            if not ok:
-                return f"pair {n} (τe={te}, τg={tg}): PerceptionAnalyzer3DField error_yaw/π of row {u} = {v / PI!r} != model {want!r}"
-    # sign-free statistics of the yaw column, from the model's errors
-    want = {"rms": math.sqrt(math.fsum(e * e for e in merrs) / len(merrs)), "max": max(abs(e) for e in merrs), "min": min(abs(e) for e in merrs)}
-    if not boundary:
-        want["average"] = math.fsum(merrs) / len(merrs)
-    for k, v in want.items():
-        if not abs(out["stats"][k] - v) <= 1e-9 * PI:
-            return f"summarize_error()['ALL','yaw'][{k}] = {out['stats'][k]!r}, from the model's errors {v!r}"
-    return None
+        bd = 1 - d < 1e-12
+        r = by.get(n)
+        if r is not None:  # (a pair the table does not list reports no yaw error: nothing to compare)
+            obs.append((r["err"] / PI, me, bd))
+            who.append((n, te, tg))
+        for role in ("g", "e"):  # the two rows of the pair in PerceptionAnalyzer3DField (one is the negative of the other)
+            v = out.get("field", {}).get(f"{role}{n}")
+            if v is not None:
+                fobs[role].append((v / PI, me, bd))
+                fwho[role].append((n, te, tg))
+    bad = _sign_fit(obs, TOL)
+    if bad is not None:
+        n, te, tg = who[bad]
+        return f"pair {n} (τe={te}, τg={tg}): analyzer yaw error/π {obs[bad][0]!r} != ± model {obs[bad][1]!r} (no global sign convention fits all rows)"
+    for role in ("g", "e"):
+        bad = _sign_fit(fobs[role], TOL)
+        if bad is not None:
+            n, te, tg = fwho[role][bad]
+            return (f"pair {n} (τe={te}, τg={tg}): PerceptionAnalyzer3DField error_yaw/π of row {role}{n} = {fobs[role][bad][0]!r} != ± model "
+                    f"{fobs[role][bad][1]!r} (no global sign convention fits all {role}-rows)")
+    # (the statistics of summarize_error() - definitions of max / min / rms / average over the column - are the tool's business,
+    # not C09's: not compared)
+    return "skip" if not obs else None
 
 
 def _oracle_analyzer(case, out):
-    if "an" not in out:
-        return f"the analysis raised {out.get('err')}: {out.get('msg')} {out.get('trace', '')[-300:]}"
+    if not isinstance(out, dict) or "an" not in out:
+        return None  # not observable through the expected public interface of the tool (dropped, see _Unobservable)
     by = _an_by_gt(out)
-    tp = {int(r["g"][1:]): r["err"] for r in out["tp"]}
+    tp = {int(r["g"][1:]): r["err"] for r in out.get("tp", []) if r["g"][1:].isdigit()}
     for n, te, tg in _an_pairs(case):
         r = by.get(n)
-        if r is None:
-            return f"pair {n}: the analyzer's table has no paired row for ground truth g{n} (estimate and ground truth stand at the same spot)"
         ye, yg = float(te) * PI, float(tg) * PI
         d = abs(math.remainder(yg - ye, 2 * PI))
         fld = out.get("field", {})
-        for where, err in (("calculate_error('yaw')", r["err"]), ("calculate_error('yaw', df=TP rows)", tp.get(n)),
+        # "The yaw error reported for a pair lies in [-pi, pi] and has magnitude d": every place that REPORTS one for this pair
+        # (a pair the table does not list reports none: no claim)
+        for where, err in (("calculate_error('yaw')", None if r is None else r["err"]), ("calculate_error('yaw', df=TP rows)", tp.get(n)),
                            (f"PerceptionAnalyzer3DField error_yaw of row g{n}", fld.get(f"g{n}")),
                            (f"PerceptionAnalyzer3DField error_yaw of row e{n}", fld.get(f"e{n}"))):
             if err is None:
@@ -401,7 +498,7 @@ def _oracle_analyzer(case, out):
             if not (-PI - 1e-12 <= err <= PI + 1e-12):
                 return f"{where}: yaw error {err!r} outside [-pi, pi] (pair {n}: yaw_est={ye!r}, yaw_gt={yg!r}, {case['frame']})"
             if abs(abs(err) - d) > TOL * PI:
-                return (f"{where}: |yaw error| {abs(err)!r} != d = {d!r} for pair {n} ({r['st']}): yaw_est={ye!r}, yaw_gt={yg!r}, "
+                return (f"{where}: |yaw error| {abs(err)!r} != d = {d!r} for pair {n} ({'' if r is None else r['st']}): yaw_est={ye!r}, yaw_gt={yg!r}, "
                         f"frame {case['frame']}")
     return None
 
@@ -460,6 +557,8 @@ def _gen_analyzer(rng, tier):
 # ----------------------------------------------------------------------------- model side
 
 def model_requests(case, out):
+    if not isinstance(out, dict) or out.get("unexpected"):
+        return []
     if case["kind"] == "analyzer":
         ps = _an_pairs(case)
         return [{"op": "analyzer", "t0": case["t0"] if case["frame"] == "map" else "0",
@@ -480,32 +579,34 @@ def _mkey(f, s):
 
 def compare(case, out, resps):
     m = resps[0]
+    if not isinstance(out, dict) or (case["kind"] != "analyzer" and "r" not in out):
+        return None  # no output of the real code to compare
     if case["kind"] == "analyzer":
         return _compare_analyzer(case, out, m)
-    if "err" in out and "r" not in out:
-        return f"implementation raised {out['err']}: {out.get('msg')}"
     if case["kind"] == "nogt":
+        # outside the quantifier (no pair of orientations): agreement with the model is recorded, anything else is no claim
         r = out["r"][0]
-        ok = r["w"] == float(core.unq(m["w"])) and r["err"] is None and m["err"] is None
-        return None if ok else f"no ground truth: impl {r} model {m}"
+        ok = r["w"] is not None and r["w"] == float(core.unq(m["w"])) and r["err"] is None and m["err"] is None
+        return None if ok else "skip"
     tol = _tol(case)
     d = core.unq(m["d"])
     near_boundary = float(1 - d) < (1e-12 if not case.get("rp") else 4 * TOL_RP)
+    obs = []
     for (f, a, b, s), r in zip(case["rend"], out["r"]):
         k = _mkey(f, s)
         mw = float(core.unq(m["w" + k]))
         me = float(core.unq(m["err" + k]))
         if not abs(r["w"] - mw) <= tol:
             return f"rendering {[f, a, b, s]}: weight impl {r['w']!r} != model {mw!r}"
-        ie = r["err"] / PI
-        if near_boundary:
-            if not abs(abs(ie) - abs(me)) <= max(tol, 4 * TOL_RP if case.get("rp") else 0):
-                return f"rendering {[f, a, b, s]}: |yaw error|/π impl {abs(ie)!r} != model {abs(me)!r} (boundary)"
-        elif not abs(ie - me) <= tol:
-            return f"rendering {[f, a, b, s]}: yaw error/π impl {ie!r} != model {me!r}"
+        obs.append((r["err"] / PI, me, near_boundary))
         if "tp" in r:
             if len(r["tp"]) != 1 or not abs(r["tp"][0] - mw) <= tol:
                 return f"rendering {[f, a, b, s]}: Ap.tp_list {r['tp']} != [model weight {mw!r}]"
+    # signed yaw error: the model's sign convention or its global opposite (the text fixes none), over all renderings of the pair
+    bad = _sign_fit(obs, max(tol, 4 * TOL_RP if case.get("rp") else 0) if near_boundary else tol)
+    if bad is not None:
+        return (f"rendering {case['rend'][bad]}: yaw error/π impl {obs[bad][0]!r} != ± model {obs[bad][1]!r}"
+                + (" (boundary)" if near_boundary else " (no global sign convention fits all renderings)"))
     if out.get("qd") and len(resps) > 1 and resps[1] is not None:
         msg = _compare_quat_level(case, out["qd"], resps[1].get("dirs", []))
         if msg:
@@ -548,18 +649,21 @@ def _names(r):
 
 
 def oracle(case, out):
+    if not isinstance(out, dict):
+        return None
+    if out.get("unexpected") or ("err" in out and "r" not in out and "an" not in out):
+        # an exception that escaped run_impl (reported by run_check itself under the current convention)
+        return f"the implementation raised {out.get('err')}: {out.get('msg', '')} {str(out.get('trace', ''))[-300:]}"
     if case["kind"] == "analyzer":
         return _oracle_analyzer(case, out)
-    for k_, dv in enumerate(out.get("derived", []) if isinstance(out, dict) else []):
-        if "exc" in dv:
-            return f"scoring a derived object raised {dv['exc']}"
+    if "r" not in out:
+        return None
+    if case["kind"] == "nogt":
+        return None  # outside the property's quantifier (pairs of orientations); compared with the model only
+    for k_, dv in enumerate(out.get("derived", [])):
         if abs(dv["w"] - 1.0) > 1e-9 or abs(dv["err"]) > 1e-9:
             return (f"an object derived from a scored one by deepcopy + new orientation (now equal to the ground truth's) "
                     f"gets heading weight {dv['w']!r} and yaw error {dv['err']!r}; a fresh object gets 1.0 and 0.0")
-    if "r" not in out:
-        return f"the implementation raised {out.get('err')}: {out.get('msg')}"
-    if case["kind"] == "nogt":
-        return None  # outside the property's quantifier (pairs of orientations); compared with the model only
     tol = _tol(case)
     ye = float(Fraction(case["te"])) * PI
     yg = float(Fraction(case["tg"])) * PI
@@ -572,9 +676,11 @@ def oracle(case, out):
     rs = list(zip(case["rend"], out["r"]))
     for rd, r in rs:
         w, err = r["w"], r["err"]
-        if not (0.0 <= w <= 1.0):
+        # closed ranges "d in [0, pi]" / "lies in [-pi, pi]", with the float slack 1e-12 the analyzer clause uses (an equivalent
+        # formula such as atan2(sin, cos) may round pi up by an ulp)
+        if not (-1e-12 <= w <= 1.0 + 1e-12):
             return f"{_names(rd)}: weight {w!r} outside [0,1] (yaw_est={ye!r}, yaw_gt={yg!r})"
-        if not (-PI <= err <= PI):
+        if not (-PI - 1e-12 <= err <= PI + 1e-12):
             return f"{_names(rd)}: yaw error {err!r} outside [-pi,pi] (yaw_est={ye!r}, yaw_gt={yg!r})"
     # invariances first (clearer messages), against the first rendering
     rd0, r0 = rs[0]
@@ -713,12 +819,17 @@ def generate(rng, tier):
 # ----------------------------------------------------------------------------- histogram, shrinking, search
 
 def branches(case, out):
+    if not isinstance(out, dict) or out.get("unexpected"):
+        return ["impl-error:" + str(out.get("err") if isinstance(out, dict) else out)]
     if case["kind"] == "nogt":
-        return ["trivial", "nogt"]
+        return ["trivial", "nogt", "skipped:outside-quantifier:no-ground-truth"]
     if case["kind"] == "analyzer":
         br = ["analyzer", "analyzer:frame:" + case["frame"], f"analyzer:frames:{len(case['frames'])}"]
+        br += ["unobservable:" + u for u in out.get("unobservable", [])]
         if "an" not in out:
-            return br + ["impl-error:" + str(out.get("err"))]
+            return br + ["trivial", "skipped:analyzer-not-observable"]
+        if len(_an_by_gt(out)) < len(_an_pairs(case)):
+            br.append("analyzer:pairs-without-a-row")
         st = {r["st"] for r in out["an"]}
         br.append("analyzer:rows:" + "+".join(sorted(st)))
         for n, te, tg in _an_pairs(case):
@@ -744,6 +855,7 @@ def branches(case, out):
         s = t + t0
         br.append(f"map-yaw-wrap:{nm}:{'-2' if s > 1 else '+2' if s <= -1 else 'none'}")
     br.append("rp" if case.get("rp") else "yaw-only")
+    br += ["unobservable:" + u for u in out.get("unobservable", [])]
     br.append(f"renderings:{len(case['rend'])}")
     if case.get("ap"):
         br.append("ap.tp_list")
